@@ -129,12 +129,16 @@ class History(object):
         self.log.append(('insert_anis', arg))
         return True
 
-    def _atom(self):
-        ats = [a for a in self.shx.atoms.all_atoms if find_entry(self.ents, a) is not None]
+    def _atom(self, absorbed_ok=False):
+        ats = [a for a in self.shx.atoms.all_atoms if find_entry(self.ents, a) is not None
+               and (absorbed_ok or not self.ents[find_entry(self.ents, a)].absorbed)]
         return self.rng.choice(ats) if ats else None
 
     def op_delete_atom(self):
-        a = self._atom()
+        a = self._atom(absorbed_ok=True)
+        hidden = [x for x in self.shx.atoms.all_atoms if find_entry(self.ents, x) is not None and self.ents[find_entry(self.ents, x)].absorbed]
+        if hidden and self.rng.random() < 0.5:
+            a = hidden[-1] if self.rng.random() < 0.7 else self.rng.choice(hidden)     # the last line of an include file is the critical one
         if a is None or len(self.shx.atoms.all_atoms) < 2:
             return False
         i = find_entry(self.ents, a)
